@@ -147,7 +147,6 @@ Qed.
 
 (** * histories with cursors *)
 From Mast Require Import Reload WorldInv.
-From Mast Require Import ReloadB.
 
 Definition acworld := (aworld2 * list (N * acur))%type.
 
